@@ -12,7 +12,8 @@
 
    Ghost variables hold the IDEAL bookkeeping the property describes, maintained independently of the operators:
      gs[k]  = [en, ns] that slot k should carry (evaluation numbers and sample counts travel with their points),
-     pv, fv = version of the point set / version the cached factorisation was computed for,
+     pv, fv = version of the point set INCLUDING the choice of its best point (the interpolation matrix is built around it) /
+              version the cached factorisation was computed for,
      dirty  = the incumbent slot itself was overwritten by a worse (or NaN) value since kopt was last chosen. *)
 EXTENDS Integers, Sequences, FiniteSets, TLC, Json, DfolsModel
 
@@ -53,7 +54,8 @@ AddSample(k, v) ==
      /\ m' = post /\ gs' = [gs EXCEPT ![k].ns = @ + 1]
      /\ dirty' = IF \E j \in 1..Len(post.slots) : ~IsNaN(post.slots[j].obj) THEN FALSE ELSE dirty   \* argmin re-selects the incumbent
      /\ Log([op |-> "as", k |-> k, v |-> v], post)
-  /\ UNCHANGED <<pv, fv, nx>>
+     /\ pv' = IF post.kopt # m.kopt THEN pv + 1 ELSE pv      \* the interpolation matrix is built around the best point
+  /\ UNCHANGED <<fv, nx>>
 
 AddPoint(v) ==
   /\ Len(m.slots) = m.numpts /\ m.numpts < Cap + MaxAdd
